@@ -55,6 +55,17 @@ CHECKS['C19'] = {
                   'buffer elements. Termination of the recursion is not verified (exec_allows_no_decreases_clause). check_layout itself (which types are checked, size comparison) is being added.',
 }
 
+CHECKS['C14'] = {
+    'engine': 'V',
+    'technique': 'Verus contracts on SourceManager (location table invariant) and get_file_location against newline-count spec + line-shift lemma',
+    'level_text': 'Unbounded deductive proof (Verus) on the verbatim text of SourceManager::{new,add_file,get_source_location_from_file_offset,get_file_location}, SourceLocation, Line, Column: '
+                  'the location table partitions the location space, and a location inside file f at offset o is reported as (name of f, 1 + number of newlines before o, 1 + o - start of the line); '
+                  'a lemma shows that inserting k complete lines in front adds exactly k to the line and leaves the column unchanged.',
+    'level_note': 'Partial: the position function and the table only. NOT decided: that trivia insertion leaves the compiler output unchanged (needs lexer + macro expander + parser), '
+                  'that every diagnostic carries the right location. Assumed: String::as_bytes/len model (uninterpreted byte sequence), derived Clone of FileName = identity. '
+                  'Precondition not proved of callers: total source bytes < 2^32 - 1.',
+}
+
 NOT_APPLICABLE = {
     'C01': 'not yet built in this session (planned partial claim: literal values and operator identity in the HLSL exporter); see DESIGN.md §3 C01',
     'C02': 'MSL meaning preservation: the Metal generator is three monoliths (4.5k+2.2k+1k lines) over HashMap-backed context; no formal MSL semantics or function-level contract within reach of Verus/Kani',
